@@ -54,7 +54,8 @@ def run(tier, seed):
             for i, b in enumerate(bs):
                 b["id"] = f"{chain}-{cons}-{i}"
             if tier == "quick":
-                bs = bs[seed % 3::3]
+                # every history in which a served version differs from one trusted before, a third of the rest
+                bs = [b for i, b in enumerate(bs) if nontrivial(b) or i % 3 == seed % 3]
             behaviours += bs
     if tier == "thorough":
         for chain in CHAINS:
